@@ -1077,7 +1077,9 @@ class Silence(Note):
 
     def copy(self):
         """ """
-        return Silence(self.duration, tempo=self.tempo, pedal=self.pedal, tags=set(self.tags))
+        res = Silence(self.duration, tempo=self.tempo, pedal=self.pedal, tags=set(self.tags))
+        res.octave = self.octave
+        return res
 
 
 class Continuation(Note):
@@ -1092,4 +1094,6 @@ class Continuation(Note):
 
     def copy(self):
         """ """
-        return Continuation(self.duration, pedal=self.pedal, tags=set(self.tags))
+        res = Continuation(self.duration, pedal=self.pedal, tags=set(self.tags))
+        res.octave = self.octave
+        return res
